@@ -32,7 +32,8 @@ CONSTANTS Conns,       \* universe of connection ids (1..NMax)
           MCCodes,     \* completion codes offered by Next
           MCLats,      \* latencies (us) offered by Next
           MCSteps,     \* time advances (ms) offered by Next
-          RunLen       \* length of the runs in UnhealthyBound / Recover
+          RunLen,      \* length of the runs in UnhealthyBound / Recover
+          FailB        \* a backend whose calls all fail is unhealthy after this many completions (>= 1 ms apart)
 
 VARIABLES ready,       \* the picker's ready connections (fixed after Init; a variable so that traces can vary it)
           now,         \* ms
@@ -43,10 +44,13 @@ VARIABLES ready,       \* the picker's ready connections (fixed after Init; a va
           lastPick, lastDone,   \* [Conns -> Int] ms, -1 = never
           prevPick,    \* time of the previous pick of the picker, -1 = none
           badrun, goodrun,      \* [Conns -> 0..RunLen] consecutive (un)acceptable completions spaced >= 1 s
+          failrun,     \* [Conns -> 0..FailB] unacceptable completions >= 1 ms after the previous completion
+                       \* since the last acceptable one (completions at the same instant carry no
+                       \* elapsed time and are not counted)
           out
 
-vars == <<ready, now, infl, picks, dones, succ, lag, lmin, lmax, lastPick, lastDone, prevPick, badrun, goodrun, out>>
-core == <<ready, now, infl, picks, dones, succ, lag, lmin, lmax, lastPick, lastDone, prevPick, badrun, goodrun>>
+vars == <<ready, now, infl, picks, dones, succ, lag, lmin, lmax, lastPick, lastDone, prevPick, badrun, goodrun, failrun, out>>
+core == <<ready, now, infl, picks, dones, succ, lag, lmin, lmax, lastPick, lastDone, prevPick, badrun, goodrun, failrun>>
 
 InitSuccess == 1000
 Throttle    == 500      \* healthy <=> succ > Throttle
@@ -85,6 +89,14 @@ LagFails(new, lo, hi) == IF new >= lo - 1 /\ new <= hi + 1 THEN {} ELSE {"lag-ra
 
 Td(c, t) == IF lastDone[c] < 0 THEN 100000 ELSE t - lastDone[c]
 
+\* "a backend whose calls all fail becomes unhealthy after a bounded number of completions": the
+\* number of unacceptable completions (each at least 1 ms after the previous completion, none
+\* acceptable in between) after which the score must be at or below the throttle.  FailB is
+\* generous: an ideal, un-truncated EWMA with the 10 s decay needs ln 2 * 10^4 = 6932 completions
+\* at 1 ms spacing; the truncating code loses at least one unit per such completion.
+FailRunAfter(c, acc, t) == IF acc THEN 0 ELSE IF Td(c, t) >= 1 THEN Min2(failrun[c] + 1, FailB) ELSE failrun[c]
+FailFails(c, acc, t, s2) == IF ~acc /\ FailRunAfter(c, acc, t) >= FailB /\ s2 > Throttle THEN {"fail-bound"} ELSE {}
+
 \* two ready connections: when picks follow each other within the force-pick period no connection
 \* is left unpicked for longer than that period plus the gap
 StarveOK(c, t) ==
@@ -101,6 +113,7 @@ DoneFails(c, code, lat, t, s2, l2) ==
   ELSE (IF infl[c] > 0 THEN {} ELSE {"inflight"})
        \cup (IF t >= now /\ lat >= 0 THEN {} ELSE {"time"})
        \cup SuccFails(succ[c], s2, Acceptable(code), Td(c, t))
+       \cup FailFails(c, Acceptable(code), t, s2)
        \cup LagFails(l2, IF dones[c] = 0 THEN lat ELSE Min2(lmin[c], lat), IF dones[c] = 0 THEN lat ELSE Max2(lmax[c], lat))
 
 \* post-states as records (one definition for the actions and for trace conformance)
@@ -118,7 +131,8 @@ DonePost(c, code, lat, t, s2, l2) ==
    lmax |-> [lmax EXCEPT ![c] = IF dones[c] = 0 THEN lat ELSE Max2(@, lat)],
    lastDone |-> [lastDone EXCEPT ![c] = t],
    badrun  |-> [badrun  EXCEPT ![c] = IF ~acc /\ far THEN Min2(@ + 1, RunLen) ELSE 0],
-   goodrun |-> [goodrun EXCEPT ![c] = IF acc /\ far THEN Min2(@ + 1, RunLen) ELSE 0]]
+   goodrun |-> [goodrun EXCEPT ![c] = IF acc /\ far THEN Min2(@ + 1, RunLen) ELSE 0],
+   failrun |-> [failrun EXCEPT ![c] = FailRunAfter(c, acc, t)]]
 
 Zero == [c \in Conns |-> 0]
 
@@ -130,7 +144,7 @@ InitWith(r) ==
   /\ lag = Zero /\ lmin = Zero /\ lmax = Zero
   /\ lastPick = [c \in Conns |-> -1] /\ lastDone = [c \in Conns |-> -1]
   /\ prevPick = -1
-  /\ badrun = Zero /\ goodrun = Zero
+  /\ badrun = Zero /\ goodrun = Zero /\ failrun = Zero
   /\ out = [op |-> "init"]
 
 Init == InitWith(MCReady)
@@ -140,7 +154,7 @@ Pick(c, t) ==
   /\ LET p == PickPost(c, t) IN
        /\ infl' = p.infl /\ picks' = p.picks /\ lastPick' = p.lastPick
   /\ now' = t /\ prevPick' = t
-  /\ UNCHANGED <<ready, dones, succ, lag, lmin, lmax, lastDone, badrun, goodrun>>
+  /\ UNCHANGED <<ready, dones, succ, lag, lmin, lmax, lastDone, badrun, goodrun, failrun>>
   /\ out' = [op |-> "pick", c |-> c, t |-> t]
 
 Done(c, code, lat, t, s2, l2) ==
@@ -148,7 +162,7 @@ Done(c, code, lat, t, s2, l2) ==
   /\ LET p == DonePost(c, code, lat, t, s2, l2) IN
        /\ infl' = p.infl /\ dones' = p.dones /\ succ' = p.succ /\ lag' = p.lag
        /\ lmin' = p.lmin /\ lmax' = p.lmax /\ lastDone' = p.lastDone
-       /\ badrun' = p.badrun /\ goodrun' = p.goodrun
+       /\ badrun' = p.badrun /\ goodrun' = p.goodrun /\ failrun' = p.failrun
   /\ now' = t
   /\ UNCHANGED <<ready, picks, lastPick, prevPick>>
   /\ out' = [op |-> "done", c |-> c, code |-> code, lat |-> lat, t |-> t, succ |-> s2, lag |-> l2]
@@ -187,6 +201,8 @@ OnlyReady == \A c \in Conns \ ready : picks[c] = 0 /\ dones[c] = 0
 \* at least a second apart, as under sustained traffic with the force-pick rule), and recovers
 UnhealthyBound == \A c \in Conns : badrun[c] >= RunLen => succ[c] <= Throttle
 Recover        == \A c \in Conns : goodrun[c] >= RunLen => succ[c] > Throttle
+\* ... and after FailB failing completions however closely spaced (>= 1 ms)
+FailBound      == \A c \in Conns : failrun[c] >= FailB => succ[c] <= Throttle
 
 NoStarve2 == [][out'.op = "pick" => StarveOK(out'.c, out'.t)]_vars
 
